@@ -277,29 +277,53 @@ func checkC09(c *Ctx) {
 	// C09.3b the block handed to verifyCert is the one looked up under the vote's hash; C09.5 stale gate
 	fcv := NewFlow(p, cv)
 	n := 0
-	eachInstr(cv, func(in ssa.Instruction) {
-		ci, ok := in.(ssa.CallInstruction)
-		if !ok || !calleeIs(ci.Common(), vcRoot) {
-			return
-		}
+	// (the calls may sit in a private helper that CollectVote hands the vote and the block to: `verifyIfNewer(cert, block)`)
+	for _, ds := range deepSites(fcv, func(cc *ssa.CallCommon) bool { return calleeIs(cc, vcRoot) }, 0) {
+		in := ssa.Instruction(ds.Site)
+		ci := ds.Site
 		n++
 		a := ci.Common().Args
 		var bad []string
-		pcK := fcv.K.Key(a[1])
-		for _, lf := range leaves(fcv, a[2], in) {
-			k := lf.KeyIn(fcv)
-			if !((strings.HasPrefix(k, "(*hs/security/blockchain.Blockchain).LocalGet(") || strings.HasPrefix(k, kBCGet)) && strings.Contains(k, ", "+kPCHash+pcK+"))") && strings.HasSuffix(k, "#0")) {
-				bad = append(bad, k)
-			}
+		pcK := ds.Args[1]
+		isLookup := func(k string) bool {
+			return (strings.HasPrefix(k, "(*hs/security/blockchain.Blockchain).LocalGet(") || strings.HasPrefix(k, kBCGet)) && strings.Contains(k, ", "+kPCHash+pcK+"))") && strings.HasSuffix(k, "#0")
 		}
-		okA := strings.HasSuffix(pcK, "hs.VoteMsg.PartialCert") && localCopyOfParam(a[1], 1) && len(bad) == 0
+		copyOK := true
+		if ds.In == cv {
+			for _, lf := range leaves(fcv, a[2], in) {
+				if k := lf.KeyIn(fcv); !isLookup(k) {
+					bad = append(bad, k)
+				}
+			}
+			copyOK = localCopyOfParam(a[1], 1)
+		} else if ds.Via != nil && len(ds.Via.Common().Args) > 2 {
+			// the block the helper was given, at the call in CollectVote that leads here
+			matched := false
+			for i, va := range ds.Via.Common().Args {
+				if fcv.K.Key(va) != ds.Args[2] {
+					continue
+				}
+				matched = true
+				for _, lf := range leaves(fcv, ds.Via.Common().Args[i], ds.Via) {
+					if k := lf.KeyIn(fcv); !isLookup(k) {
+						bad = append(bad, k)
+					}
+				}
+			}
+			if !matched && !isLookup(ds.Args[2]) {
+				bad = append(bad, ds.Args[2])
+			}
+		} else if !isLookup(ds.Args[2]) {
+			bad = append(bad, ds.Args[2])
+		}
+		okA := strings.HasSuffix(pcK, "hs.VoteMsg.PartialCert") && copyOK && len(bad) == 0
 		c.Check(okA, "C09.3", "CollectVote->verifyCert: block of the vote's hash", p.Pos(in.Pos()),
-			"verifyCert(vote.PartialCert, block looked up under vote.PartialCert.BlockHash())", "verifyCert args: "+fcv.K.Key(a[1])+", "+join(bad))
-		facts := fcv.At(in)
+			"verifyCert(vote.PartialCert, block looked up under vote.PartialCert.BlockHash())", "verifyCert args: "+pcK+", "+join(bad))
+		facts := ds.Facts
 		okS := hasCmp(facts, "<", func(k string) bool { return strings.HasPrefix(k, kQCView+kStateHiQC) }, func(k string) bool { return strings.HasPrefix(k, kBlockView) })
 		c.Check(okS, "C09.5/stale", "CollectVote: votes for blocks not newer than the high QC are dropped", p.Pos(in.Pos()),
 			"verification starts only under HighQC().View() < block.View()", "verifyCert reachable for a stale block; facts: "+join(facts.Sorted()))
-	})
+	}
 	if n < 2 {
 		c.Unresolved("C09.3", "CollectVote", "expected a synchronous and an asynchronous verifyCert call")
 	}
